@@ -4,14 +4,24 @@ Mode 3 (ledger) over data with a KNOWN spectrum + TLC ordering logic.
 (M)    Pca.tla, section Spectral: TLC enumerates every admissible integer spectrum (length <= 5 over a 12-letter alphabet,
        squared singular ratios <= 0.7225), extracts by arg-max and shows explained variance is the descending normalised
        spectrum and that the criterion-implied bounds are defined; the wrong extraction order ("first") must be rejected.
-(GEN)  the same run emits every (spectrum, shape) case.
-(C)    c02_drv builds X = U diag(sigma) V' + 1 offset' with exactly that SVD (seeded QR), runs the real PCA() (scaling 0/-1
-       against the construction, scalings 1..5 against a long-double Jacobi eigen-solver cross-checked with LAPACK dsyev),
-       paired runs on row-permuted / column-permuted / rotated / rescaled data; TLC validates every case against
-       TracePcaSpectral.tla: component order = spec order, eigenvalues within TolEig, score and loading errors within the
-       bounds TLC computes from the logged spectrum (K = 30, eps = sqrt(n*1e-10)).
+       Shapes are triples <<n, c, nproc>>: base shapes on one processor (tall / wide / square / n = p +- 1 / single column /
+       block boundaries 4k, 4k +- 1, ~32, ~64) and MT shapes around the slice boundaries of 2, 3, 5, 16 (24) workers (fewer
+       items than workers, k nproc +- 1, ragged last slice, idle last worker); the slice recurrence of the two MT kernels is
+       defined in the module and TLC shows it hands every column / row to exactly one worker for every emitted shape
+       (SlicesCover, MtShapeClasses).  The location term of the bounds (LocBase9 / LocK9 / BoundsPTL) is shown to change nothing
+       when absent, to widen monotonically and to saturate instead of overflowing (LocSound).
+(GEN)  the same run emits every (spectrum, shape, nproc) case with its shape-class tags.
+(C)    c02_drv builds X = U diag(sigma) V' + 1 offset' with exactly that SVD (seeded QR), runs the real PCA() under the forced
+       processor count, preprocesses the data ITSELF in long double (two-pass; never the library's statistics), takes as truth
+       the construction (scaling 0/-1, ordinary offsets) or a long-double Jacobi eigen-solver on E'E cross-checked with LAPACK
+       dsyev; paired runs on row-permuted / column-permuted / rotated / rescaled data, a repeated fit after an in-process
+       history of other fits; TLC validates every case against TracePcaSpectral.tla: component order = spec order, eigenvalues
+       within TolEig, score and loading errors within the bounds TLC computes from the logged spectrum (K = 30,
+       eps = sqrt(n*1e-10)) plus, for the location class only, the term TLC computes from the logged one-ulp representability
+       of the column locations.  Impl layer: slices of the MT kernels (hook H3), the stopping rule as coded (hook H4),
+       bit-identical refit.  Ext layer (outside the statement, EXTRA-FINDING only): stored column statistics, fit into a used model.
 """
-import math, os, random, shutil
+import copy, math, os, random, shutil
 from concurrent.futures import ThreadPoolExecutor
 from vf import build, tlc, trace
 from vf import run as hrun
@@ -19,17 +29,32 @@ from vf.core import InfraError
 
 LEVEL = "exploration"
 READY = True
-TECHNIQUE = ("TLC enumeration of all admissible spectra (Pca.tla Spectral: arg-max extraction, descending normalised explained variance) generating the cases; "
-             "data with exactly those singular values built by the harness; TLC trace validation of the real PCA's axis order, eigenvalues, score/loading errors "
-             "against criterion-implied bounds computed by TLC, and of paired permuted/rotated/rescaled runs (oracles: construction, long-double Jacobi, LAPACK dsyev)")
-LEVEL_TEXT = ("Sampled inputs with known truth: for TLC-enumerated separated spectra and shapes, matrices with exactly that SVD are fitted by the real PCA() under all 7 scalings "
-              "and data magnitudes 1e-8..1e6 (scalings 0/-1; 1..1e3 for the normalising options); TLC validates per component that it sits on the true axis of the same index, carries its eigenvalue within TolEig, and that score and "
-              "loading errors stay within the bound implied by the documented stopping rule; row/column permutations, rotations and rescalings must reproduce the transformed model.")
-LEVEL_NOTE = ("Exploration: spectra/shapes are enumerated exhaustively by TLC within the alphabet, but orthogonal factors, offsets, scalings and decades are sampled. Trusts TLC, "
-              "the harness's construction of data with a known SVD, its long-double Jacobi solver (cross-checked against dsyev and the construction on every case), "
-              "and its error evaluation/quantisation (binding self-test). Bound constant K = 30 with the two-sequence recurrence of LedgerArith.tla.")
+TECHNIQUE = ("TLC enumeration of all admissible spectra x shapes x forced processor counts (Pca.tla Spectral: arg-max extraction, descending normalised explained variance, "
+             "slice recurrence of the MT kernels covers every column/row exactly once, location term of the bounds sound/monotone/saturating) generating the cases; "
+             "data with exactly those singular values built by the harness (ordinary and 1e3..1e8 x spread column offsets, duplicate rows/columns, constant columns, in-process histories); "
+             "TLC trace validation of the real PCA's axis order, eigenvalues, score/loading errors against criterion-implied bounds computed by TLC (plus a TLC-computed "
+             "representability term for the location class), and of paired permuted/rotated/rescaled/repeated runs "
+             "(oracles: construction, long-double two-pass preprocessing + long-double Jacobi, LAPACK dsyev)")
+LEVEL_TEXT = ("Sampled inputs with known truth: for TLC-enumerated separated spectra, shapes (tall, wide, square, n = p +- 1, single column, block boundaries) and forced processor counts "
+              "1, 2, 3, 5, 16 (24 in the thorough tier; shapes around the slice boundaries so that the multithreaded t'E / E p kernels run with empty, ragged and idle slices), matrices with "
+              "exactly that SVD are fitted by the real PCA() under all 7 scalings, data magnitudes 1e-8..1e6 (scalings 0/-1; 1..1e6 for the normalising options) and column offsets from "
+              "0.1 x to 1e8 x the column spread; the harness preprocesses the data itself in long double; TLC validates per component that it sits on the true axis of the same index, carries its "
+              "eigenvalue within TolEig, and that score and loading errors stay within the bound implied by the documented stopping rule (plus one-ulp representability of the locations, "
+              "computed by TLC from the logged input, for the location class only); row/column permutations, rotations, rescalings and a refit after other fits must reproduce the transformed model.")
+LEVEL_NOTE = ("Exploration: spectra/shapes/processor counts are enumerated exhaustively by TLC within the alphabet, but orthogonal factors, offsets, scalings and decades are sampled. Trusts TLC, "
+              "the harness's construction of data with a known SVD, its long-double preprocessing and Jacobi solver (cross-checked against dsyev and the construction on every case), "
+              "and its error evaluation/quantisation (binding self-tests per event kind). Bound constant K = 30 with the two-sequence recurrence of LedgerArith.tla; location term CLoc = 12 (n + 1) loc sigma_1/sigma_k. "
+              "Input classes deliberately NOT generated because the quantifier excludes them: K9 missing values (the statement does not speak about the missing-value code; entries that collide with "
+              "99999999 are dropped), K10 labels (none in PCA), K4 per-column unit systems (X D is not of the form U diag(s) V' + offsets; only the whole-matrix rescaling is in), "
+              "magnitudes below 1 for scalings 1..5 and column scales in (0, 1.2e-2) (the library's zero-scale guard: C10/C18), unseparated spectra (ratio > 0.85), single row (n = 1), "
+              "K8 exact ties between eigenvalues. A fit into a model that already holds a fit (K7 'reuse') and the stored column statistics are outside the statement: reported as EXTRA-FINDING only.")
 
+W = max(1, int(os.environ.get("VERIF_WORKERS", "6")))
+TLC_WORKERS = int(os.environ["VERIF_WORKERS"]) if os.environ.get("VERIF_WORKERS") else 16
 SCALINGS = [-1, 0, 0, 1, 2, 3, 4, 5]
+EXT_EVENTS = ("Prep", "Reuse")
+GEN_EVENTS = ("Reset", "Case", "Spectrum", "Loc", "Dropped", "Summary")
+CLOC = 12.0
 
 
 def _ncmp(sig2):
@@ -42,29 +67,32 @@ def _ncmp(sig2):
     return k
 
 
-def _bounds(sig2, n, K=30.0):
-    """float mirror of LedgerArith!BoundsPT - for reporting worst observed/bound and for naming only"""
+def _bounds(sig2, n, K=30.0, loc12=0):
+    """float mirror of LedgerArith!BoundsPT / Pca!BoundsPTL - for reporting worst observed/bound, for naming and for the sandwich self-test"""
     eps = math.sqrt(n * 1e-10)
+    lb = CLOC * (n + 1) * loc12 * 1e-12
     bt, bp = [], []
     for k in range(_ncmp(sig2)):
         rho = sig2[k + 1] / sig2[k] if k + 1 < len(sig2) else 0.0
         gt, gp = max(rho / (1 - rho), 0.05), max(math.sqrt(rho) / (1 - rho), 0.05)
+        lk = lb * math.sqrt(sig2[0] / sig2[k])
         lp = sum(bp)
         lt = sum(bp[j] * math.sqrt(sig2[j] / sig2[k]) for j in range(k))
-        bp.append(min(1.0, K * eps * gp + lp / (1 - rho)))
-        bt.append(min(1.0, K * eps * gt + lt / (1 - rho)))
+        bp.append(min(1.0, K * eps * gp + lp / (1 - rho) + lk))
+        bt.append(min(1.0, K * eps * gt + lt / (1 - rho) + lk))
     return bt, bp
 
 
-def _evtol(n, s2k, entries):
+def _evtol(n, s2k, entries, sig2=None, loc12=0):
     r = math.isqrt(n * 1000000)
     r = r if r * r == n * 1000000 else r + 1
-    return 40 * r + (entries + 1) * (10 ** 9 // max(1, s2k)) + 2
+    lk = CLOC * (n + 1) * loc12 * 1e-3 * math.sqrt(sig2[0] / s2k) if (sig2 and loc12) else 0
+    return 40 * r + (entries + 1) * (10 ** 9 // max(1, s2k)) + 2 + lk
 
 
 def _model_and_cases(ctx):
     cfg = "MC_PcaSpectral_quick.cfg" if ctx.quick else "MC_PcaSpectral_thorough.cfg"
-    r = tlc.run("Pca", cfg, timeout=1500)
+    r = tlc.run("Pca", cfg, timeout=1700, workers=TLC_WORKERS)
     ctx.add_tlc(r, "mc_pca_spectral")
     if not r.ok:
         raise InfraError("Pca.tla (Spectral): %s fails in the model itself:\n%s" % (r.violation, r.trace_text[:1500]))
@@ -72,65 +100,145 @@ def _model_and_cases(ctx):
         raise InfraError("Pca.tla (Spectral): ExtractPrincipal never taken")
     seen, cases = set(), []
     for e in r.emits:
-        key = (tuple(e["sig2"]), e["n"], e["c"])
+        key = (tuple(e["sig2"]), e["n"], e["c"], e["np"])
         if key not in seen:
             seen.add(key)
-            cases.append(key)
+            cases.append(key + (tuple(sorted(e["tags"])),))
     if len(cases) < 50:
         raise InfraError("Spectral GEN emitted only %d cases" % len(cases))
+    nps = sorted({k[3] for k in cases})
+    if nps[:1] != [1] or len(nps) < 5:
+        raise InfraError("Spectral GEN emitted processor counts %s only" % nps)
     # non-vacuity: a wrong extraction order must violate SpectralOrder
     rd = tlc.rundir()
     try:
         p = os.path.join(rd, "first.cfg")
         open(p, "w").write(open(os.path.join(tlc.SPEC, "MC_PcaSpectral_quick.cfg")).read().replace('StartRule = "argmax"', 'StartRule = "first"').replace("CONSTRAINT Emit\n", ""))
-        rf = tlc.run("Pca", p, timeout=600, coverage=False)
+        rf = tlc.run("Pca", p, timeout=600, coverage=False, workers=TLC_WORKERS)
         ctx.add_tlc(rf, "mc_pca_spectral_wrong_order")
         if rf.ok or rf.violation != "SpectralOrder":
             raise InfraError("Pca.tla (Spectral): wrong extraction order is not rejected (vacuous)")
     finally:
         shutil.rmtree(rd, ignore_errors=True)
-    ctx.note("spectral model: %d states, %d (spectrum, shape) cases emitted; wrong extraction order rejected" % (r.distinct, len(cases)))
+    ctx.note("spectral model: %d states, %d (spectrum, shape, nproc) cases emitted for nproc %s; wrong extraction order rejected" % (r.distinct, len(cases), nps))
     return cases
 
 
-def _draw(rng, key):
-    sig2, n, c = key
+def _draw(rng, key, **over):
+    sig2, n, c, np_, tags = key
     scaling = rng.choice(SCALINGS)
     dec = rng.randint(-8, 6) if scaling in (-1, 0) else rng.randint(0, 3)
-    return dict(sig2=list(sig2), n=n, c=c, scaling=scaling, dec=dec, tail=rng.randint(0, 2), seed=rng.randrange(1, 2 ** 30))
+    d = dict(sig2=list(sig2), n=n, c=c, nproc=np_, tags=list(tags), scaling=scaling, dec=dec, tail=rng.randint(0, 2), seed=rng.randrange(1, 2 ** 30), loc=0, deg=0, hist=0)
+    d.update(over)
+    if "scaling" in over and "dec" not in over:
+        d["dec"] = rng.randint(-8, 6) if d["scaling"] in (-1, 0) else rng.randint(0, 3)
+    return d
 
 
 def _plan(ctx, cases):
     rng = random.Random(ctx.seed)
+    base = [k for k in cases if k[3] == 1]
+    orig = [k for k in base if (k[1], k[2]) in ((7, 5), (30, 6), (6, 12), (9, 9), (60, 25), (4, 25), (2, 3), (3, 3), (12, 2), (25, 25), (45, 3))]
+    oset = set(orig)
+    newshape = [k for k in base if k not in oset]
+    multi = [k for k in base if len(k[0]) >= 2]
+    mt = {}
+    for k in cases:
+        if k[3] > 1:
+            mt.setdefault(k[3], []).append(k)
+    plan = []
     if ctx.quick:
-        picked = rng.sample(cases, min(len(cases), 260))
-        plan = [_draw(rng, k) for k in picked]
+        plan += [_draw(rng, k) for k in rng.sample(orig, min(len(orig), 260))]
         # the small-eigenvalue corner must be present in every run (that is where finding F11 lives)
-        for k in rng.sample([k for k in cases if len(k[0]) >= 2], 24):
-            d = _draw(rng, k)
-            d["scaling"], d["dec"] = rng.choice([0, -1]), rng.choice([-8, -6, -5, -3, -2])
-            plan.append(d)
+        for k in rng.sample([k for k in orig if len(k[0]) >= 2], 24):
+            plan.append(_draw(rng, k, scaling=rng.choice([0, -1]), dec=rng.choice([-8, -6, -5, -3, -2])))
+        n_new, n_loc, n_deg, n_hist, n_k4, n_unc = 80, 112, 64, 40, 30, 16
+        n_mt = {2: 16, 3: 16, 5: 16, 16: 10}
     else:
-        plan = [_draw(rng, k) for k in cases]
-        plan += [_draw(rng, rng.choice(cases)) for _ in range(max(0, 10500 - len(plan)))]
+        plan += [_draw(rng, k) for k in rng.sample(orig, min(len(orig), 8500))]
+        plan += [_draw(rng, rng.choice(orig)) for _ in range(max(0, 8500 - len(plan)))]
+        n_new, n_loc, n_deg, n_hist, n_k4, n_unc = 2000, 2100, 900, 500, 400, 200
+        n_mt = {2: 300, 3: 300, 5: 300, 16: 150, 24: 80}
+    # K1 / K2: the added base shapes (n = p +- 1, single column, block boundaries)
+    by_shape = {}
+    for k in newshape:
+        by_shape.setdefault((k[1], k[2]), []).append(k)
+    for i in range(n_new):
+        sh = sorted(by_shape)[i % len(by_shape)]
+        plan.append(_draw(rng, rng.choice(by_shape[sh])))
+    # K3: column locations 1e3 .. 1e8 x the column spread, every scaling option (the sdev-based ones twice)
+    locs = [4, 6, 7, 8, 7, 8, 6, 8]
+    scs = [1, 3, 1, 3, 0, 2, 4, 5, 1, 3, -1, 0, 1, 3]
+    for i in range(n_loc):
+        k = rng.choice(multi if i % 4 else base)
+        sc = scs[i % len(scs)]
+        plan.append(_draw(rng, k, scaling=sc, loc=locs[(i // len(scs) + i) % len(locs)], dec=rng.randint(-3, 3) if sc in (-1, 0) else rng.randint(0, 3)))
+    # K3 for the option that does not centre: ordinary offsets stay in the data (truth: Jacobi on X'X)
+    for i in range(n_unc):
+        plan.append(_draw(rng, rng.choice(base), scaling=-1, deg=4, dec=rng.randint(-6, 5)))
+    # K5 / K8: duplicate objects, duplicate variables, constant column at a non-representable value, all offsets non-representable
+    for i in range(n_deg):
+        plan.append(_draw(rng, rng.choice(multi if i % 3 else base), deg=1 + i % 4, scaling=[0, 1, 2, 3, 4, 5, 0, 1][(i // 4) % 8]))
+    # K7: in-process histories
+    for i in range(n_hist):
+        plan.append(_draw(rng, rng.choice(base), hist=1, loc=(7 if i % 5 == 0 else 0), scaling=(1 if i % 5 == 0 else rng.choice(SCALINGS))))
+    # K4: large magnitudes for the normalising options
+    for i in range(n_k4):
+        plan.append(_draw(rng, rng.choice(base), scaling=1 + i % 5, dec=4 + i % 3))
+    # K6 (+K2 slice boundaries): forced processor counts on the MT shapes
+    for np_, cnt in sorted(n_mt.items()):
+        if not mt.get(np_):
+            raise InfraError("Spectral GEN emitted no shape for nproc %d" % np_)
+        by_shape = {}
+        for k in mt[np_]:
+            by_shape.setdefault((k[1], k[2]), []).append(k)
+        shapes = sorted(by_shape)
+        for i in range(cnt):
+            sh = shapes[i % len(shapes)] if i < 2 * len(shapes) or ctx.quick else rng.choice(shapes)
+            ks = by_shape[sh]
+            k = rng.choice([q for q in ks if len(q[0]) >= 2] or ks)
+            over = {}
+            if i % 6 == 4:
+                over = dict(scaling=rng.choice([1, 3]), loc=rng.choice([6, 7, 8]))
+            elif i % 6 == 5:
+                over = dict(hist=1)
+            d = _draw(rng, k, **over)
+            if d["scaling"] in (-1, 0) and d["dec"] < -3 and np_ >= 16:
+                d["dec"] = -3        # keep the iteration counts (and with them nproc threads per iteration) moderate for the widest thread counts
+            plan.append(d)
+    seeds = set()
+    for d in plan:
+        while d["seed"] in seeds:
+            d["seed"] = rng.randrange(1, 2 ** 30)
+        seeds.add(d["seed"])
     return plan
 
 
 def _write_cases(path, plan):
     with open(path, "w") as f:
         for d in plan:
-            f.write("%d %d %d %d %d %d %d %s\n" % (d["n"], d["c"], d["scaling"], d["dec"], d["tail"], d["seed"], len(d["sig2"]), " ".join(str(x) for x in d["sig2"])))
+            f.write("%d %d %d %d %d %d %d %d %d %d %d %s\n" % (d["n"], d["c"], d["scaling"], d["dec"], d["tail"], d["seed"], d["nproc"], d["loc"], d["deg"], d["hist"],
+                                                            len(d["sig2"]), " ".join(str(x) for x in d["sig2"])))
 
 
-def _record(ctx, exe, rd, plan, nproc=1, parts=6, timeout=2400):
+def _cost(d):
+    return (1 + d["hist"]) * (1.0 if d["nproc"] == 1 else 12.0 * d["nproc"] ** 0.5) * (1 + d["n"] * d["c"] / 600.0)
+
+
+def _record(ctx, exe, rd, plan, parts=6, timeout=2400):
     parts = max(1, min(parts, len(plan) // 20 or 1))
+    # balance the parts by estimated cost (the MT cases spawn nproc threads per NIPALS iteration)
+    bins = [[0.0, []] for _ in range(parts)]
+    for d in sorted(plan, key=_cost, reverse=True):
+        b = min(bins, key=lambda x: x[0])
+        b[0] += _cost(d)
+        b[1].append(d)
     jobs = []
-    for i in range(parts):
-        sub = plan[i::parts]
+    for i, (_, sub) in enumerate(bins):
         cf = os.path.join(rd, "cases_%d.txt" % i)
         _write_cases(cf, sub)
-        jobs.append([os.path.join(rd, "c02_%d.ndjson" % i), "cases", cf, nproc])
-    res = hrun.run_many(exe, jobs, timeout=timeout, workers=6)
+        jobs.append([os.path.join(rd, "c02_%d.ndjson" % i), "cases", cf])
+    res = hrun.run_many(exe, jobs, timeout=timeout, workers=W)
     chunks = []
     for j, h in zip(jobs, res):
         ev = hrun.read_ndjson(j[0])
@@ -155,53 +263,120 @@ def _case_of(block):
     return case, spec.get("sig2", [])
 
 
+def _loc_of(block):
+    return next((e["loc12"] for e in block if e.get("e") == "Loc"), 0)
+
+
+def _tags(case, d, block):
+    """input classes of one executed case (INPUT-CLASSES.md): the shape tags TLC computed + what the drawn parameters say"""
+    t = list(d.get("tags", []))
+    t.append("K6:nproc%d" % case["nproc"])
+    L, r = case["L"], case["L"] + case["tail"]
+    t.append("K1:npc=1" if L == 1 else ("K1:npc=rank" if L == r else "K1:1<npc<rank"))
+    if case["loc"]:
+        t.append("K3:offset/sdev~1e%d" % case["loc"])
+        t.append("K3:loc-scaling%d" % case["scaling"])
+    elif case["scaling"] == -1 and case["src"] == "jacobi":
+        t.append("K3:uncentred-offsets")
+    else:
+        t.append("K3:offset/spread<=1e3")
+    if case["dec"] <= -6:
+        t.append("K4:magnitude<=1e-6")
+    if case["dec"] >= 4:
+        t.append("K4:magnitude>=1e4" + ("-normalising-option" if case["scaling"] >= 1 else ""))
+    if case["deg"] in (3, 4):
+        t.append("K5:non-representable-constants")
+    if case["hist"]:
+        t.append("K7:other-fits-before,refit-after")
+        if any(e.get("e") == "Reuse" for e in block):
+            t.append("K7:fit-into-used-model(extra)")
+    if case["deg"]:
+        t.append({1: "K8:duplicate-rows", 2: "K8:duplicate-columns", 3: "K8:constant-column", 4: "K5:offsets-0.1,1/3,0.7"}[case["deg"]])
+    return t
+
+
+REQUIRED_CLASSES = ["K1:tall", "K1:wide", "K1:square", "K1:n=p+-1", "K1:single-column", "K1:npc=1", "K1:npc=rank", "K1:1<npc<rank",
+                    "K2:cols=4k", "K2:cols=4k+1", "K2:cols=4k-1", "K2:rows=4k", "K2:rows~32", "K2:cols=k*nproc+1", "K2:cols=k*nproc-1", "K2:rows=k*nproc+1", "K2:rows=k*nproc-1",
+                    "K3:offset/sdev~1e6", "K3:offset/sdev~1e7", "K3:offset/sdev~1e8", "K3:loc-scaling1", "K3:loc-scaling3", "K3:loc-scaling0", "K3:loc-scaling2", "K3:loc-scaling4",
+                    "K3:loc-scaling5", "K3:loc-scaling-1", "K3:uncentred-offsets", "K4:magnitude<=1e-6", "K4:magnitude>=1e4", "K4:magnitude>=1e4-normalising-option",
+                    "K5:non-representable-constants", "K6:nproc1", "K6:nproc2", "K6:nproc3", "K6:nproc5", "K6:nproc16", "K6:cols<nproc", "K6:rows<nproc",
+                    "K6:cols-ragged-last-slice", "K6:rows-ragged-last-slice", "K6:cols-idle-worker", "K7:other-fits-before,refit-after",
+                    "K8:duplicate-rows", "K8:duplicate-columns", "K8:constant-column"]
+
+
 def _account(ctx, chunks, plan_by_seed):
     ncase = ndrop = 0
-    worst = dict(axis_score=0.0, axis_loading=0.0, pair=0.0, eigen=0.0, oracle=0)
+    worst = dict(axis_score=0.0, axis_loading=0.0, pair=0.0, eigen=0.0, oracle=0, axis_loc=0.0, pair_loc=0.0, axis_mt=0.0)
     wcase = {}
+    drops = {}
+    kern_calls = {}
     for ev in chunks:
         for b in tlc.split_blocks(ev):
             case, sig2 = _case_of(b)
             if not case:
                 continue
-            if any(e["e"] == "Dropped" for e in b):
+            dr = next((e for e in b if e["e"] == "Dropped"), None)
+            if dr:
                 ndrop += 1
+                drops[dr["why"]] = drops.get(dr["why"], 0) + 1
                 continue
             ncase += 1
             d = plan_by_seed.get(case["seed"], {})
             m = _ncmp(sig2)
-            ctx.case((tuple(d.get("sig2", sig2)), case["n"], case["c"], case["scaling"], case["dec"]), m >= 2)
-            bt, bp = _bounds(sig2, case["n"])
+            loc12 = _loc_of(b)
+            ctx.case((tuple(d.get("sig2", sig2)), case["n"], case["c"], case["scaling"], case["dec"], case["nproc"], case["loc"], case["deg"], case["hist"]), m >= 2)
+            for t in _tags(case, d, b):
+                ctx.cls(t)
+            if case["nproc"] > 1:
+                sites = {e["site"]: e["calls"] for e in b if e["e"] == "Kern"}
+                if not any(e["e"] == "Abort" for e in b) and any(e["e"] == "Axis" for e in b) and set(sites) != {"vm", "mv"}:
+                    raise InfraError("c02: forced nproc=%d but the slice hook (H3) did not fire in both MT kernels of the fit under test: %s (case %s)" % (case["nproc"], sites, case))
+                for s_, c_ in sites.items():
+                    kern_calls[s_] = kern_calls.get(s_, 0) + c_
+            if any(e["e"] == "Axis" for e in b) and not any(e["e"] == "Stop" for e in b):
+                raise InfraError("c02: the iteration hook (H4) did not fire in the fit under test (case %s)" % case)
+            bt, bp = _bounds(sig2, case["n"], loc12=loc12)
             for e in b:
                 if e["e"] == "Axis" and e["k"] <= m:
                     k = e["k"] - 1
-                    for nm, r in (("axis_score", e["terr"] * 1e-9 / bt[k]), ("axis_loading", e["perr"] * 1e-9 / bp[k]),
-                                  ("eigen", max(e["evalErr"], e["vErr"]) / _evtol(case["n"], sig2[k], len(sig2)))):
+                    rs = (("axis_score", e["terr"] * 1e-9 / bt[k]), ("axis_loading", e["perr"] * 1e-9 / bp[k]),
+                          ("eigen", max(e["evalErr"], e["vErr"]) / _evtol(case["n"], sig2[k], len(sig2), sig2, loc12)))
+                    if case["loc"]:
+                        rs += (("axis_loc", max(e["terr"] * 1e-9 / bt[k], e["perr"] * 1e-9 / bp[k])),)
+                    if case["nproc"] > 1:
+                        rs += (("axis_mt", max(e["terr"] * 1e-9 / bt[k], e["perr"] * 1e-9 / bp[k])),)
+                    for nm, r in rs:
                         if r > worst[nm]:
                             worst[nm] = r
                             wcase[nm] = dict(case=case, event=e)
-                elif e["e"] in ("Pair", "Scale"):
+                elif e["e"] in ("Pair", "Scale", "Hist"):
                     for k in range(min(m, len(e["terr"]))):
                         r = max(e["terr"][k] * 1e-9 / (2 * bt[k]), e["perr"][k] * 1e-9 / (2 * bp[k]))
-                        if r > worst["pair"]:
-                            worst["pair"] = r
-                            wcase["pair"] = dict(case=case, event=e)
+                        for nm in ("pair",) + (("pair_loc",) if case["loc"] else ()):
+                            if r > worst[nm]:
+                                worst[nm] = r
+                                wcase[nm] = dict(case=case, event=e)
                 elif e["e"] == "Oracle":
                     worst["oracle"] = max(worst["oracle"], e["err"])
     if ncase == 0:
         raise InfraError("c02 harness produced no cases")
-    cs = [_case_of(b) for ev in chunks for b in tlc.split_blocks(ev)]
+    cs = [_case_of(b) for ev in chunks for b in tlc.split_blocks(ev) if not any(e["e"] == "Dropped" for e in b)]
     classes = dict(two_or_more_compared=sum(1 for c, s2 in cs if c and _ncmp(s2) >= 2), small_eigenvalues=sum(1 for c, s2 in cs if c and c["dec"] <= -2), tiny_magnitude=sum(1 for c, s2 in cs if c and c["dec"] <= -6), large_magnitude=sum(1 for c, s2 in cs if c and c["dec"] >= 4),
-                   rotated=sum(1 for ev in chunks for e in ev if e["e"] == "Pair" and e["kind"] == "rot"), shrunk=sum(1 for ev in chunks for e in ev if e["e"] == "Scale" and e["cexp"] < 0))
+                   rotated=sum(1 for ev in chunks for e in ev if e["e"] == "Pair" and e["kind"] == "rot"), shrunk=sum(1 for ev in chunks for e in ev if e["e"] == "Scale" and e["cexp"] < 0),
+                   refits=sum(1 for ev in chunks for e in ev if e["e"] == "Hist"), mt_kernel_events=sum(1 for ev in chunks for e in ev if e["e"] == "Kern"),
+                   stop_events=sum(1 for ev in chunks for e in ev if e["e"] == "Stop"), loc_events=sum(1 for ev in chunks for e in ev if e["e"] == "Loc"))
     for sc in range(-1, 6):
         classes["scaling_%d" % sc] = sum(1 for c, s2 in cs if c and c["scaling"] == sc)
     ctx.steps["classes"] = classes
-    missing = [k for k, v in classes.items() if v == 0]
+    missing = [k for k, v in classes.items() if v == 0] + [k for k in REQUIRED_CLASSES if not ctx.classes.get(k)]
+    if not ctx.quick and not ctx.classes.get("K6:nproc24"):
+        missing.append("K6:nproc24")
     if missing:
         raise InfraError("c02 recording does not exercise: %s (vacuous antecedents)" % missing)
     ctx.steps["worst_observed_over_bound"] = {k: (round(v, 4) if isinstance(v, float) else v) for k, v in worst.items()}
     ctx.steps["worst_cases"] = wcase
-    ctx.steps["cases"] = dict(run=ncase, dropped_outside_quantifier=ndrop)
+    ctx.steps["cases"] = dict(run=ncase, dropped_outside_quantifier=ndrop, dropped_why=drops)
+    ctx.steps["mt_kernel_calls_in_fits_under_test"] = kern_calls
     return ncase, ndrop, worst
 
 
@@ -209,6 +384,7 @@ def _name(block, ev):
     case, sig2 = _case_of(block)
     m = _ncmp(sig2)
     n = case.get("n", 2)
+    loc12 = _loc_of(block)
     e = ev.get("e")
     if e == "Diverge":
         return "no-convergence", "NIPALS loop of %s did not converge within %s iterations (component %s)" % (ev.get("site"), ev.get("it"), ev.get("comp"))
@@ -216,76 +392,204 @@ def _name(block, ev):
         return "no-convergence" if ev.get("why") == "iteration-budget" else "crash:%s" % ev.get("why"), "fit did not finish (%s)" % ev
     if e == "Oracle":
         return "oracle", "oracles disagree: %s" % ev
-    bt, bp = _bounds(sig2, n)
+    bt, bp = _bounds(sig2, n, loc12=loc12)
     if e == "Axis":
         k = ev["k"]
         if ev["match"] != k:
             return "order", "component %d sits on true axis %d" % (k, ev["match"])
-        if k <= m and max(ev["evalErr"], ev["vErr"]) > _evtol(n, sig2[k - 1], len(sig2)):
+        if k <= m and max(ev["evalErr"], ev["vErr"]) > _evtol(n, sig2[k - 1], len(sig2), sig2, loc12):
             return "eigenvalue", "component %d: t't off by %.3g, explained variance off by %.3g (relative; tolerance %.3g)" % (
-                k, ev["evalErr"] * 1e-9, ev["vErr"] * 1e-9, _evtol(n, sig2[k - 1], len(sig2)) * 1e-9)
+                k, ev["evalErr"] * 1e-9, ev["vErr"] * 1e-9, _evtol(n, sig2[k - 1], len(sig2), sig2, loc12) * 1e-9)
         if k <= m:
             return "axis", "component %d: score error %.3g (bound %.3g), loading error %.3g (bound %.3g) = %.1fx the criterion-implied bound" % (
                 k, ev["terr"] * 1e-9, bt[k - 1], ev["perr"] * 1e-9, bp[k - 1], max(ev["terr"] * 1e-9 / bt[k - 1], ev["perr"] * 1e-9 / bp[k - 1]))
-    if e in ("Pair", "Scale"):
-        kind = ev.get("kind") or ("scale:1e%d" % ev["cexp"])
+    if e in ("Pair", "Scale", "Hist", "Reuse"):
+        kind = ev.get("kind") or ("scale:1e%d" % ev["cexp"] if e == "Scale" else "refit-after-other-fits" if e == "Hist" else "fit-into-used-model")
         r = max([max(ev["terr"][k] * 1e-9 / (2 * bt[k]), ev["perr"][k] * 1e-9 / (2 * bp[k])) for k in range(min(m, len(ev["terr"])))] or [0])
+        if r <= 1 and e == "Scale":
+            return "equivariance:%s" % kind, "explained variances of PCA(cX) differ from those of PCA(X) by %s (relative, 1e-9 units; allowed 2 x TolEig)" % ev.get("verr")
         return "equivariance:%s" % kind, "paired run (%s) differs from the transformed original by %.1fx the allowed 2 x bound: scores %s loadings %s (1e-9 units)" % (
             kind, r, ev["terr"], ev["perr"])
     return "trace", "event %s rejected" % ev
 
 
-def _validate(ctx, chunks, plan_by_seed, label, max_rounds):
+def _split_ext(chunks):
+    """main trace (statement + Impl layer) and the Ext trace (Prep / Reuse with the context TLC needs to judge them): every Prep first,
+    then the Reuse events of a few histories (a rejected block ends the examination of its own events only)"""
+    main = [[e for e in ev if e.get("e") not in EXT_EVENTS] for ev in chunks]
+    ctxev = ("Reset", "Case", "Spectrum", "Loc", "Oracle")
+    prep, reuse = [], []
+    for ev in chunks:
+        for b in tlc.split_blocks(ev):
+            if not any(e.get("e") == "Oracle" for e in b):
+                continue
+            if any(e.get("e") == "Prep" for e in b):
+                prep += [e for e in b if e.get("e") in ctxev + ("Prep",)]
+            if any(e.get("e") == "Reuse" for e in b) and sum(1 for e in reuse if e["e"] == "Reuse") < 3:
+                reuse += [e for e in b if e.get("e") in ctxev + ("Reuse",)]
+    return main, prep + reuse
+
+
+def _replay_of(case, d, ev):
+    return dict(kind="case", n=case.get("n"), c=case.get("c"), scaling=case.get("scaling"), dec=case.get("dec"), tail=case.get("tail"),
+                seed=case.get("seed"), nproc=case.get("nproc", 1), loc=case.get("loc", 0), deg=case.get("deg", 0), hist=case.get("hist", 0), sig2=d.get("sig2"), event=ev)
+
+
+def _validate(ctx, chunks, plan_by_seed, label, max_rounds, extra_jobs=(), late_jobs=()):
+    """main trace chunks, the Ext trace and (extra_jobs) the binding self-tests share one pool of TLC processes"""
     def on_reject(ev, idx, block):
         case, sig2 = _case_of(block)
+        if ev.get("e") in GEN_EVENTS:
+            raise InfraError("C02 generator/recorder left the quantifier or the event grammar: %s rejected in case %s" % (ev, case))
         nm, what = _name(block, ev)
         if nm == "oracle":
             raise InfraError("C02 oracles (construction / Jacobi / dsyev) disagree on case %s: %s" % (case, ev))
         d = plan_by_seed.get(case.get("seed"), {})
-        ctx.violation("PCA:spectral:%s" % nm, "n=%s c=%s scaling=%s decade=%s spectrum=%s seed=%s: %s" % (
-            case.get("n"), case.get("c"), case.get("scaling"), case.get("dec"), d.get("sig2", sig2), case.get("seed"), what),
-            dict(kind="case", n=case.get("n"), c=case.get("c"), scaling=case.get("scaling"), dec=case.get("dec"), tail=case.get("tail"),
-                 seed=case.get("seed"), nproc=case.get("nproc", 1), sig2=d.get("sig2"), event=ev))
+        ctx.violation("PCA:spectral:%s" % nm, "n=%s c=%s scaling=%s decade=%s nproc=%s loc=%s deg=%s hist=%s spectrum=%s seed=%s: %s" % (
+            case.get("n"), case.get("c"), case.get("scaling"), case.get("dec"), case.get("nproc"), case.get("loc"), case.get("deg"), case.get("hist"),
+            d.get("sig2", sig2), case.get("seed"), what), _replay_of(case, d, ev))
 
     def one(args):
         i, ev = args
         return trace.check_trace(ctx, "TracePcaSpectral", "Trace_PcaSpectral.cfg", "Trace_PcaSpectral_prop.cfg", ev, on_reject, drop="block",
                                  max_rounds=max_rounds, label="%s_%d" % (label, i), timeout=1500)
-    with ThreadPoolExecutor(6) as ex:
-        return sum(ex.map(one, list(enumerate(chunks))))
+    main, ext = _split_ext(chunks)
+
+    # Ext layer: behaviour the statement of C02 does not cover - TLC judges, the check only reports
+    def on_reject_ext(ev, idx, block):
+        case, sig2 = _case_of(block)
+        if ev.get("e") not in EXT_EVENTS:
+            raise InfraError("C02 Ext trace: %s rejected (case %s)" % (ev, case))
+        if ev["e"] == "Prep":
+            sig, what = "PCA:prep:stored-statistics", ("model->colaverage / colscaling differ from the two-pass long-double statistics of the input by %.3g / %.3g (relative; tolerance 1e-6) "
+                                                       "on n=%s c=%s scaling=%s loc=%s seed=%s" % (ev["avgErr"] * 1e-9, ev["sclErr"] * 1e-9, case.get("n"), case.get("c"), case.get("scaling"), case.get("loc"), case.get("seed")))
+        else:
+            sig, what = "PCA:reuse:fit-into-used-model", ("PCA() into a PCAMODEL that already holds a fit of other data of the same shape does not give the model of the new data "
+                                                          "(%s; n=%s c=%s scaling=%s seed=%s): the stored column averages/scalings of the old fit are applied" % (
+                                                              _name(block, ev)[1], case.get("n"), case.get("c"), case.get("scaling"), case.get("seed")))
+        dup = sig in ctx.extras
+        ctx.extra(sig, what)
+        return "dup" if dup else None
+    eb = tlc.split_blocks(ext) if ext else []
+    eparts = [[e for b in eb[i:i + 2000] for e in b] for i in range(0, len(eb), 2000)]
+
+    def ext_job(i, part):
+        trace.check_trace(ctx, "TracePcaSpectral", "Trace_PcaSpectral_prop.cfg", "Trace_PcaSpectral_prop.cfg", part, on_reject_ext, drop="block", max_rounds=4, label="%s_ext_%d" % (label, i), timeout=900)
+    with ThreadPoolExecutor(W + 2) as ex:
+        fm = [ex.submit(one, a) for a in enumerate(main)]
+        fo = [ex.submit(ext_job, i, part) for i, part in enumerate(eparts)] + [ex.submit(j) for j in extra_jobs]
+        rej = sum(f.result() for f in fm)
+        fo += [ex.submit(j) for j in late_jobs]          # jobs that need to know whether violations were reported
+        for f in fo:
+            f.result()
+    return rej
 
 
-def _binding(ctx, chunks):
-    blocks = [b for ch in chunks[:3] for b in tlc.split_blocks(ch) if any(e["e"] == "Scale" for e in b)][:15]
-    ev = [e for b in blocks for e in b]
-    if not any(e["e"] == "Axis" for e in ev) and ctx.violations:
-        ctx.note("binding self-test skipped: no completed case in the recording (violations reported above)")
-        return
+def _binding_jobs(ctx, chunks):
+    """binding self-tests (one per event kind: a corrupted recorded field must be rejected by TLC) as callables for the shared pool"""
+    main, ext = _split_ext(chunks)
+    allb = [b for ch in main for b in tlc.split_blocks(ch)]
+    done = [b for b in allb if any(e["e"] == "Scale" for e in b) and not any(e["e"] in ("Abort", "Diverge") for e in b)]
+    if not done:
+        if ctx.violations:
+            ctx.note("binding self-test skipped: no completed case in the recording (violations reported above)")
+            return [], []
+        raise InfraError("c02: no completed case for the binding self-tests")
 
-    def corrupt(evs):
-        for e in evs:
-            if e["e"] == "Axis" and e["k"] == 1:
-                e["terr"] = min(2000000000, max(1, e["terr"]) * 1000000)
-                return True
-        return False
-    trace.binding_selftest(ctx, "TracePcaSpectral", "Trace_PcaSpectral_prop.cfg", ev, corrupt, "binding_score_error_x1e6")
+    def pick(pred, n=6):
+        return [e for b in [b for b in done if pred(b)][:n] for e in b]
 
-    def corrupt2(evs):
-        for e in evs:
-            if e["e"] == "Axis" and e["k"] == 1:
-                e["match"] = 2
-                return True
-        return False
-    trace.binding_selftest(ctx, "TracePcaSpectral", "Trace_PcaSpectral_prop.cfg", ev, corrupt2, "binding_axis_order")
+    def field(kind, name, value, pred=lambda e: True):
+        def corrupt(evs):
+            for e in evs:
+                if e["e"] == kind and pred(e):
+                    e[name] = value(e[name]) if callable(value) else value
+                    return True
+            return False
+        return corrupt
+    big = lambda v: min(2000000000, max(1, v) * 1000000)
+    PROP, IMPL = "Trace_PcaSpectral_prop.cfg", "Trace_PcaSpectral.cfg"
+    plain = pick(lambda b: True, 8)
+    isloc = lambda b: any(e["e"] == "Loc" for e in b)
+    ismt = lambda b: any(e["e"] == "Kern" for e in b)
+    ishist = lambda b: any(e["e"] == "Hist" for e in b)
+    tests = [
+        ("binding_score_error_x1e6", PROP, plain, field("Axis", "terr", big, lambda e: e["k"] == 1)),
+        ("binding_axis_order", PROP, plain, field("Axis", "match", 2, lambda e: e["k"] == 1)),
+        ("binding_case_nproc", PROP, plain, field("Case", "nproc", 0)),
+        ("binding_stop_criterion", IMPL, plain, field("Stop", "conv", 5000, lambda e: e["k"] == 1)),
+        ("binding_start_column", IMPL, plain, field("Stop", "start", 50000000, lambda e: e["k"] == 1)),
+        ("binding_loc_ratio", PROP, pick(isloc), field("Loc", "ratio", 2000000000)),
+        ("binding_kern_lost_column", IMPL, pick(ismt), lambda evs: _corrupt_kern(evs)),
+        ("binding_hist_not_identical", IMPL, pick(ishist), field("Hist", "same", 0)),
+        ("binding_hist_error", PROP, pick(ishist), field("Hist", "perr", lambda v: [2000000000] * len(v))),
+    ]
+    eb = tlc.split_blocks(ext)
+    exte = [e for b in eb[:6] + [b for b in eb if any(e["e"] == "Reuse" for e in b)][:2] for e in b]
+    tests.append(("binding_prep_scale", PROP, exte, field("Prep", "sclErr", 1000000)))
+    if any(e["e"] == "Reuse" for e in exte):
+        tests.append(("binding_reuse_error", PROP, exte, field("Reuse", "perr", lambda v: [2000000000] * len(v))))
+    for nm, cfg, evs, cor in tests:
+        if not evs:
+            raise InfraError("c02: no recorded block for self-test %s" % nm)
+
+    jobs = [(lambda t=t: trace.binding_selftest(ctx, "TracePcaSpectral", t[1], t[2], t[3], t[0])) for t in tests]
+    def sandwich():
+        # location term: the python mirror used for reporting / naming and the bound TLC computes agree (sandwich).  The recorded terms are
+        # small against the criterion term (1e-8 x spread at most), so the test plants a large one (loc12 = 5e7, i.e. 5e-5) into a recorded
+        # location-class block: a score error of 0.6 x the mirrored bound must be accepted, 1.7 x rejected, and without the planted term rejected
+        cand = [b for b in done if isloc(b) and _ncmp(_case_of(b)[1]) >= 1]
+        if not cand:
+            raise InfraError("c02: no location-class block for the sandwich self-test")
+        blk = None
+        for b in cand[:4]:       # the recorded block itself must be acceptable (it is not when the tree under test violates the property on it)
+            if not ctx.violations or tlc.validate_trace("TracePcaSpectral", PROP, b)[0]:     # no violation reported: every block was accepted by the main validation
+                blk = b
+                break
+        if blk is None:
+            if ctx.violations:
+                ctx.note("location sandwich self-test skipped: the recorded location-class blocks are themselves rejected (violations reported above)")
+                return
+            raise InfraError("c02: recorded location-class blocks are rejected on their own although no violation was reported")
+        case, sig2 = _case_of(blk)
+        planted = 50000000
+        b1, _ = _bounds(sig2, case["n"], loc12=planted)
+        b0, _ = _bounds(sig2, case["n"])
+        for f, loc12, want in ((0.6, planted, True), (1.7, planted, False), (0.6, 0, False)):
+            if not want and loc12 == 0 and 0.6 * b1[0] <= b0[0]:
+                raise InfraError("c02: planted location term does not dominate (%.3g vs %.3g)" % (b1[0], b0[0]))
+            ev = copy.deepcopy(blk)
+            for e in ev:
+                if e["e"] == "Loc":
+                    e["loc12"] = loc12
+                if e["e"] == "Axis" and e["k"] == 1:
+                    e["terr"] = int(f * b1[0] * 1e9)
+            ok, n_, r = tlc.validate_trace("TracePcaSpectral", PROP, ev)
+            if ok != want:
+                raise InfraError("c02: location bound of the spec and its mirror disagree (score error %.1f x the mirrored bound with loc12=%d %s)" % (f, loc12, "rejected" if want else "accepted"))
+        ctx.steps["binding_loc_sandwich"] = dict(ok=True, planted_loc12=planted, bound_with=b1[0], bound_without=b0[0])
+    return jobs, [sandwich]
+
+
+def _corrupt_kern(evs):
+    for e in evs:
+        if e["e"] == "Kern" and e["site"] == "vm" and e["len"] >= 2:
+            for w in range(len(e["to"]) - 1, -1, -1):       # the last non-empty slice loses its last column
+                if e["to"][w] > e["from"][w]:
+                    e["to"][w] -= 1
+                    return True
+    return False
 
 
 def run(ctx):
     ctx.assumptions += [
-        "spectra and shapes are enumerated by TLC; orthogonal factors, offsets, scaling option, data decade (1e-8..1e6 for scalings 0/-1 - absolute magnitude of the data, further rescaled by 1e+-3 in the paired runs - and 1..1e3 otherwise) and tail are sampled (seeded): level exploration",
-        "truth: the constructed SVD (scaling 0/-1) or the harness's long-double cyclic Jacobi solver on E'E (scalings 1..5), each case cross-checked against LAPACK dsyev and the construction (Oracle event, 1e-6 of lambda_1)",
-        "E = MatrixPreprocess(X) is the preprocessed matrix (C10); inputs whose column scale falls into the fit/apply guard zone (< 1.2e-2) are not generated",
+        "spectra, shapes and forced processor counts are enumerated by TLC; orthogonal factors, offsets, scaling option, data decade (1e-8..1e6 for scalings 0/-1 - absolute magnitude of the data, further rescaled by 1e+-3 in the paired runs - and 1..1e6 otherwise), tail, location / degenerate / history class are sampled (seeded): level exploration",
+        "truth: the constructed SVD (scaling 0/-1, ordinary offsets) or the harness's long-double cyclic Jacobi solver on E'E (scalings 1..5, location class, un-centred offsets), each case cross-checked against LAPACK dsyev and the construction (Oracle event, 1e-6 of lambda_1)",
+        "E is the preprocessed matrix computed by the harness in long double from the documented definition of the option (two-pass mean and sdev, rms of the raw column, sqrt(sdev), range, mean); inputs whose column scale falls into the library's fit/apply guard zone (0 < |scale| < 1.2e-2) or that contain the missing-value code are not generated",
         "bounds: K = 30, eps = sqrt(n*1e-10); loadings eps*sqrt(rho)/(1-rho), scores eps*rho/(1-rho), floor 0.05, leakage of earlier loading errors (LedgerArith.tla); eigenvalues TolEig relative + 1e-9*ss0",
+        "location class only: every bound and eigenvalue tolerance additionally gets CLoc (n+1) loc sigma_1/sigma_k, CLoc = 12, loc = 2^-53 sqrt(n SUM_j (mean_j/scale_j)^2)/sigma_1 logged from the input alone (Pca.tla LocBase9/LocK9/BoundsPTL); all other classes keep exactly the bounds they had",
         "components are judged up to the first squared singular ratio > 0.7225 (the property's quantifier), at most 6",
+        "forced processor counts (hook H2) replace the detected count; for nproc > 1 the slice hook (H3) must fire in both MT kernels of the fit under test",
     ]
     cases = _model_and_cases(ctx)
     plan = _plan(ctx, cases)
@@ -294,18 +598,21 @@ def run(ctx):
     exe = build.build_harness("c02", ["c02_drv.c"], lib)
     rd = tlc.rundir()
     try:
-        chunks = _record(ctx, exe, rd, plan, parts=6 if ctx.quick else 12)
+        chunks = _record(ctx, exe, rd, plan, parts=W if ctx.quick else 16)
         ncase, ndrop, worst = _account(ctx, chunks, plan_by_seed)
         ctx.note("recorded %d cases (%d dropped as outside the quantifier); worst observed/bound: %s" % (ncase, ndrop, ctx.steps["worst_observed_over_bound"]))
-        for b in tlc.split_blocks(chunks[0])[:2]:
+        bl = tlc.split_blocks(chunks[0])
+        for b in bl[:1] + [b for b in bl if any(e["e"] == "Loc" for e in b)][:1] + [b for b in bl if any(e["e"] == "Kern" for e in b)][:1]:
             ctx.sample(b)
-        ctx.cov["rule"] = ("every admissible spectrum (length <= 5 over {1,2,3,4,5,8,12,20,40,100,400,2000}, squared ratios <= 0.7225) x shape emitted by TLC; "
-                           "%s; the harness builds data with exactly that SVD under a drawn scaling option (-1..5), decade and tail; one evaluation = one case "
-                           "(base fit + 4..5 paired fits) validated by TLC; distinct = (spectrum, n, c, scaling, decade); non-trivial = at least 2 compared components"
-                           % ("quick tier: a seeded sample of 260 + 24 small-eigenvalue cases" if ctx.quick else "thorough tier: every emitted case once plus random repeats up to 10,500"))
-        rej = _validate(ctx, chunks, plan_by_seed, "trace_spectral", 4 if ctx.quick else 10)
+        ctx.cov["rule"] = ("every admissible spectrum (length <= 5 over {1,2,3,4,5,8,12,20,40,100,400,2000}, squared ratios <= 0.7225) x shape x forced processor count emitted by TLC; "
+                           "%s; the harness builds data with exactly that SVD under a drawn scaling option (-1..5), decade, tail, location class (offset/sdev up to 1e8), degenerate factor "
+                           "(duplicate rows/columns, constant column) and in-process history; one evaluation = one case (base fit + 4..6 paired fits) validated by TLC; "
+                           "distinct = (spectrum, n, c, scaling, decade, nproc, loc, deg, hist); non-trivial = at least 2 compared components"
+                           % ("quick tier: a seeded stratified sample (284 of the original class, 80 on the added shapes, 128 location, 64 degenerate, 40 histories, 30 large magnitudes, 16 un-centred offsets, 58 multithreaded)"
+                              if ctx.quick else "thorough tier: a seeded stratified sample (8,500 of the original class over the 11 original shapes, 2,000 on the 14 added shapes, 2,100 location, 900 degenerate, 500 histories, 400 large magnitudes, 200 un-centred offsets, 1,130 multithreaded)"))
+        bj, late = _binding_jobs(ctx, chunks)
+        rej = _validate(ctx, chunks, plan_by_seed, "trace_spectral", 4 if ctx.quick else 10, extra_jobs=bj, late_jobs=late)
         ctx.traces(max(0, ncase - rej))
-        _binding(ctx, chunks)
     finally:
         shutil.rmtree(rd, ignore_errors=True)
 
@@ -319,7 +626,8 @@ def replay(ctx, body):
     rd = tlc.rundir()
     try:
         out = os.path.join(rd, "replay.ndjson")
-        args = [out, "one", case["n"], case["c"], case["scaling"], case["dec"], case.get("tail", 0), case["seed"], case.get("nproc", 1), len(case["sig2"])] + list(case["sig2"])
+        args = [out, "one", case["n"], case["c"], case["scaling"], case["dec"], case.get("tail", 0), case["seed"], case.get("nproc", 1),
+                case.get("loc", 0), case.get("deg", 0), case.get("hist", 0), len(case["sig2"])] + list(case["sig2"])
         h = hrun.run(exe, args, timeout=900)
         ev = [e for e in hrun.read_ndjson(out) if e.get("e") != "Summary"]
         if h.san:
@@ -327,10 +635,10 @@ def replay(ctx, body):
         if not ev:
             raise InfraError("replay produced no events: %s" % h.err[-500:])
         plan_by_seed = {case["seed"]: dict(sig2=case["sig2"])}
-        ctx.case(("replay", tuple(case["sig2"]), case["n"], case["c"], case["scaling"], case["dec"]))
+        ctx.case(("replay", tuple(case["sig2"]), case["n"], case["c"], case["scaling"], case["dec"], case.get("nproc", 1), case.get("loc", 0), case.get("deg", 0), case.get("hist", 0)))
         ctx.case(("replay-seed", case["seed"]))
         ctx.sample(ev)
-        ctx.cov["rule"] = "replay of one recorded case (spectrum, n, c, scaling, decade, tail, seed) refitted on the current tree"
+        ctx.cov["rule"] = "replay of one recorded case (spectrum, n, c, scaling, decade, tail, seed, nproc, loc, deg, hist) refitted on the current tree"
         rej = _validate(ctx, [ev], plan_by_seed, "replay", 3)
         ctx.traces(0 if rej else 1)
     finally:
